@@ -39,7 +39,7 @@ struct Trav { int task, ev; long inv, ret; std::vector<int> visits; bool complet
 
 struct Counters
 {
-	uint64_t linChecked = 0, linOps = 0, linNodes = 0, travChecked = 0, travVisits = 0, overlapRuns = 0, warpedRuns = 0, removeRaces = 0, insertBeforeRemoved = 0,
+	uint64_t linChecked = 0, linOps = 0, linNodes = 0, travChecked = 0, travVisits = 0, overlapRuns = 0, warpedRuns = 0, foreignOwnsQueries = 0, removeRaces = 0, insertBeforeRemoved = 0,
 		travSteppedRemoved = 0, drainRemovals = 0, nestedOps = 0, linBudgetExhausted = 0, linSkippedTooLong = 0;
 	uint64_t perObj[OBJ_KINDS] = { 0, 0, 0, 0, 0, 0 };
 } counters;
@@ -180,6 +180,9 @@ struct Harness
 			Handle hd;
 			const int slot = op.b;
 			if(slot >= 0 && slot < MAXCB && filled[slot] && cbEvent[slot] == e) { hd = handles[slot]; h.usedCb = slot; }
+			// ownsHandle(event, handle of ANOTHER event's listener) is a legitimate query (it must answer false); remove / insert
+			// with a foreign handle are documented misuse and keep getting an empty handle instead
+			else if(op.k == O_OWNS && slot >= 0 && slot < MAXCB && filled[slot]) { hd = handles[slot]; ++counters.foreignOwnsQueries; }
 			h.inv = stamp.next();
 			h.result = op.k == O_REMOVE ? obj->remove(e, hd) : obj->owns(e, hd);
 			h.ret = stamp.next();
@@ -590,7 +593,12 @@ void generate(uint64_t seed, Plan & plan)
 			else if(r < 25 && canAdd) { op = Op(O_PREPEND, nextCb, 0, 0, (int)rng.below((uint32_t)nEvents)); }
 			else if(r < 45 && canAdd) { const int sl = pickSlot(-1); op = Op(O_INSERT, nextCb, sl, 0, sl < nextCb ? cbEvent[sl] : 0); }
 			else if(r < 72) { const int sl = pickSlot(-1); op = Op(O_REMOVE, 0, sl, 0, sl < nextCb ? cbEvent[sl] : 0); }
-			else if(r < 79) { const int sl = pickSlot(-1); op = Op(O_OWNS, 0, sl, 0, sl < nextCb ? cbEvent[sl] : 0); }
+			else if(r < 79) {
+				const int sl = pickSlot(-1);
+				int ev = sl < nextCb ? cbEvent[sl] : 0;
+				if(nEvents > 1 && rng.chance(1, 2)) ev = (ev + 1 + (int)rng.below((uint32_t)nEvents - 1)) % nEvents;   // ask one event's list about another event's handle
+				op = Op(O_OWNS, 0, sl, 0, ev);
+			}
 			else if(r < 84) { op = Op(O_EMPTY, 0, 0, 0, (int)rng.below((uint32_t)nEvents)); }
 			else if(r < 95) { op = Op(O_INVOKE, (int)rng.below(100), 0, 0, (int)rng.below((uint32_t)nEvents)); }
 			else if(r < 98) { op = Op(O_FOREACH, (int)rng.below(2), 0, 0, (int)rng.below((uint32_t)nEvents)); }
@@ -647,7 +655,7 @@ void statsJson(std::string & out)
 	  << ",\"sim_ns\":" << s.totSimNs
 	  << ",\"probes\":{\"lin_histories_checked\":" << counters.linChecked << ",\"lin_ops\":" << counters.linOps << ",\"lin_search_nodes\":" << counters.linNodes
 	  << ",\"traversals_checked\":" << counters.travChecked << ",\"traversal_visits\":" << counters.travVisits
-	  << ",\"runs_with_overlap\":" << counters.overlapRuns << ",\"runs_straddling_the_generation_wrap\":" << counters.warpedRuns << ",\"concurrent_removes_same_handle\":" << counters.removeRaces
+	  << ",\"runs_with_overlap\":" << counters.overlapRuns << ",\"runs_straddling_the_generation_wrap\":" << counters.warpedRuns << ",\"ownsHandle_queries_with_another_events_handle\":" << counters.foreignOwnsQueries << ",\"concurrent_removes_same_handle\":" << counters.removeRaces
 	  << ",\"insert_before_concurrently_removed\":" << counters.insertBeforeRemoved << ",\"drain_removals\":" << counters.drainRemovals
 	  << ",\"nested_ops_from_callbacks\":" << counters.nestedOps << ",\"lin_search_budget_exhausted\":" << counters.linBudgetExhausted << ",\"lin_histories_too_long_skipped\":" << counters.linSkippedTooLong
 	  << ",\"mutex_contended\":" << probes().mutexContended << ",\"spin_contended\":" << probes().spinContended << "}"
